@@ -136,6 +136,7 @@ const magicByteOffset = 16
 // could not be read.
 func (rs *RecordSet) ReadFrom(r io.Reader) (int64, error) {
 	d, _ := r.(*decoder)
+	enclosed := d != nil // the record set is a field of a larger message
 	if d == nil {
 		d = &decoder{
 			reader: r,
@@ -155,7 +156,7 @@ func (rs *RecordSet) ReadFrom(r io.Reader) (int64, error) {
 		return 4, nil
 	}
 
-	if limit != 4 && int(size) > d.remain {
+	if enclosed && int(size) > d.remain {
 		// The record set cannot extend past the end of the message that
 		// contains it.
 		err := fmt.Errorf("record set of %d bytes with %d bytes remaining in the message: %w", size, d.remain, io.ErrUnexpectedEOF)
